@@ -346,6 +346,12 @@ func (it writerItem) snippet() snippet.Snippet {
 			panic(err)
 		}
 		return snippet.ID(inst)
+	case "ifacelit":
+		// an unnamed interface with a method whose signature names a type of another package, below a slice: however the
+		// printer writes it (it writes `any` for every unnamed interface — F30), a package its text mentions is imported
+		res := types.NewTuple(types.NewVar(token.NoPos, nil, "", mkNamed(it.Path, "N")))
+		m := types.NewFunc(token.NoPos, nil, "Now", types.NewSignatureType(nil, nil, nil, nil, res, false))
+		return snippet.ID(types.NewSlice(types.NewInterfaceType([]*types.Func{m}, nil).Complete()))
 	case "lit":
 		var t types.Type = mkNamed(it.Path, "E")
 		for _, a := range it.Args {
@@ -419,6 +425,14 @@ func (c writerCase) judgeFile(self, file string) string {
 	for _, it := range c.Items {
 		if it.Kind == "valuepair" {
 			want[fixturesMod+"/util"], want[fixturesMod+"/other/util"] = true, true
+			continue
+		}
+		if it.Kind == "ifacelit" {
+			// whether the text mentions the package is the printer's business; if it does, the checks below on qualifiers
+			// and imports apply
+			if _, imported := imports[it.Path]; imported && it.Path != self {
+				want[it.Path] = true
+			}
 			continue
 		}
 		for _, p := range append([]string{it.Path}, it.Args...) {
@@ -573,7 +587,7 @@ func init() {
 				k := 1 + r.Intn(5)
 				c := writerCase{}
 				for j := 0; j < k; j++ {
-					it := writerItem{Kind: Pick(r, []string{"idstr", "expose", "named", "generic", "lit", "sharedargs", "idstr", "named", "valuepair"}), Path: genModPath(r)}
+					it := writerItem{Kind: Pick(r, []string{"idstr", "expose", "named", "generic", "lit", "sharedargs", "idstr", "named", "valuepair", "ifacelit"}), Path: genModPath(r)}
 					if it.Kind == "generic" {
 						for q := 0; q < 1+r.Intn(2); q++ {
 							it.Args = append(it.Args, genModPath(r))
